@@ -50,6 +50,10 @@ func handshakeCases(tier string) []tcase {
 					add(tran, role, valid[:k], then, false)
 				}
 			}
+			if tran == "tls+tcp" && role == roleListen {
+				// the hostile peer connects at TCP level and never even starts the TLS handshake
+				add(tran, role, nil, "silence-before-tls", false)
+			}
 			add(tran, role, append(append([]byte{}, valid...), []byte("GARBAGE! this is not an SP message\r\n")...), "silence", true)
 			add(tran, role, append(append([]byte{}, valid...), bytes.Repeat([]byte{0xff}, 24)...), "silence", true)
 			for _, pos := range positions {
@@ -72,6 +76,7 @@ func runHandshake(c *cctx, tran, role string, send []byte, then string, garbage 
 		return
 	}
 	defer s.close()
+	s.noTLSHostile = then == "silence-before-tls"
 	what := "truncated"
 	valid := len(send) >= 8 && bytes.Equal(send[:8], spHeader(protoBus))
 	switch {
